@@ -119,11 +119,29 @@ func forcedCommitWindow(run *evid.Run, n int) {
 			}
 			released.Store(true)
 		})
+		// a bystander that has nothing to do with either goroutine keeps looking at the session (is it
+		// committed? did it fail?) throughout: what a commit abandoned midway records about itself is
+		// shared state like any other
+		var stopBystander atomic.Bool
+		var bwg sync.WaitGroup
+		if buf, ok := w.(*ocimem.Buffer); ok && (cancelInWindow || i%7 == 3) {
+			bwg.Add(1)
+			go func() {
+				defer bwg.Done()
+				for !stopBystander.Load() {
+					buf.GetBlob()
+					buf.Size()
+					runtime.Gosched()
+				}
+			}()
+		}
 		desc, cerr := w.Commit(ociregistry.Digest(d))
 		ocimem.VerifSetYield(nil)
 		if hits > 0 {
 			<-done
 		}
+		stopBystander.Store(true)
+		bwg.Wait()
 		run.Eval(1)
 		run.Count("forced_windows_hit", hits)
 		if o.inWindow {
